@@ -1228,13 +1228,32 @@ fn scenario_writers(rng: &mut Rng, thorough: bool) -> ScenarioW {
     let focus: Vec<&str> = (0..2 + rng.below(5)).map(|_| pick_kind(rng)).collect();
     let mut items = vec![];
     let delay = minutes.saturating_mul(60);
+    // the last reception (aircraft, frame): re-sent unchanged within the same second now and then (a second receiver
+    // relaying the frame after the de-duplication window) — every one of them is a record of that aircraft and counts
+    let mut prev: Option<(usize, String)> = None;
     for _ in 0..len {
         let text = |t: f64| if whole { format!("{}", t.floor()) } else { format!("{:.3}", t) };
         match rng.below(100) {
             0..=56 => {
-                let ai = rng.below(acs.len() as u64) as usize;
-                let kind = if rng.chance(2, 3) { *rng.pick(&focus) } else { pick_kind(rng) };
-                let f = hex(&frame(rng, &mut acs[ai], kind));
+                let repeat = prev.is_some() && rng.chance(1, 5);
+                let (ai, f) = if repeat {
+                    prev.clone().unwrap()
+                } else {
+                    let ai = rng.below(acs.len() as u64) as usize;
+                    let kind = if rng.chance(2, 3) { *rng.pick(&focus) } else { pick_kind(rng) };
+                    (ai, hex(&frame(rng, &mut acs[ai], kind)))
+                };
+                prev = Some((ai, f.clone()));
+                if repeat {
+                    // same second (or the next one): no other change of the clock
+                    t += *rng.pick(&[0.0, 0.0, 0.25, 0.6, 1.0]);
+                    items.push(Item::Rec(text(t), f.clone()));
+                    last[ai] = Some(ts_of(&text(t)));
+                    if rng.chance(9, 10) {
+                        items.push(Item::Hist(text(t), f));
+                    }
+                    continue;
+                }
                 match rng.below(12) {
                     0 => t -= rng.f64() * 30.0,
                     1 => {}
